@@ -460,8 +460,10 @@ def run(R):
             R.disagree("reference downscale: NumPy restatement vs model", case, None, None)
         if impl.shape != r.shape or not np.array_equal(impl, r):
             R.violation("downscaler differs from the documented statistic on a whole array (C07's concern)", case, {})
+    _whole_level_oracle(R, rng, quick)
     R.notes.append("averaging is compared on values < 2^32 (float64 sums exact, C07); float32 data and uint64 averaging "
-                   "are outside the compared domain")
+                   "are outside the model-compared domain; the whole-level oracle below also covers float32 and "
+                   "--outside-value through the package's own downscaler applied to the entire previous scale")
     R.notes.append("chunks of the previous scale are assumed complete (the whole level was written); encodings are "
                    "assumed lossless (raw, compressed_segmentation: C02/C03)")
     logging.disable(logging.NOTSET)
@@ -473,6 +475,76 @@ def run(R):
         print(collections.Counter(v["what"] for v in R.disagreements))
         for v in R.disagreements[:5]:
             print(v)
+
+
+def _whole_level_oracle(R, rng, quick):
+    """The property, literally: after the real commands ran, every scale must equal the selected
+    downscaling method applied to the ENTIRE previous scale as one array (the package's own downscaler
+    object, with the same options, on the whole level) - whatever the chunking.  Covers --outside-value,
+    float32 data and anisotropic voxel sizes, which the model-compared streams leave out."""
+    import json as _json
+    from harness import pipeline
+    from neuroglancer_scripts import downscaling
+    n = 14 if quick else 400
+    for i in range(n):
+        d = os.path.join(R.tmp, f"wl{i}")
+        os.makedirs(d)
+        shape = [rng.choice([1, 2, 3, 5, 8, 9, 13, 17, 21, 33, rng.randrange(1, 40)]) for _ in range(3)]
+        dt = rng.choice(["uint8", "uint16", "float32", "uint32"])
+        nch = rng.choice([1, 1, 2])
+        n_el = int(np.prod(shape)) * nch
+        if dt == "float32":
+            arr = np.array([rng.choice([0.0, 1.5, 2.5, 1e6, -3.25]) if rng.random() < 0.3 else rng.uniform(-5, 300)
+                            for _ in range(n_el)], dtype=dt)
+        else:
+            hi = int(np.iinfo(dt).max)
+            arr = np.array([rng.choice([0, 1, hi, hi - 1]) if rng.random() < 0.3 else rng.randrange(min(hi, 1000) + 1)
+                            for _ in range(n_el)], dtype=dt)
+        arr = arr.reshape(shape + ([nch] if nch > 1 else []))
+        vox = rng.choice([(1.0, 1.0, 1.0), (1.0, 1.0, 1.0), (1.0, 2.0, 4.0), (1.0, 1.0, 2.0), (2.0, 1.0, 1.0), (1.0, 4.0, 1.0)])
+        nii = os.path.join(d, "v.nii")
+        pipeline.write_nifti(nii, arr, affine=np.diag(list(vox) + [1.0]))
+        out = os.path.join(d, "out")
+        method = rng.choice(["average", "average", "majority", "stride"])
+        ov = rng.choice([None, 0.0, 1.5, 255.0, -3.0]) if method == "average" else None
+        opts = ["--downscaling-method", method] + (["--outside-value", ov] if ov is not None else [])
+        store = rng.choice([[], ["--flat"], ["--no-gzip"]])
+        steps = [("volume_to_precomputed", ["--generate-info", nii, out]),
+                 ("generate_scales_info", [os.path.join(out, "info_fullres.json"), out,
+                                           "--target-chunk-size", rng.choice([2, 4, 8])]),
+                 ("volume_to_precomputed", [nii, out] + store),
+                 ("compute_scales", [out] + opts + store)]
+        case = {"whole_level_oracle": True, "shape": shape, "dtype": dt, "channels": nch, "voxel_size": list(vox),
+                "method": method, "outside_value": ov, "storage": store}
+        failed = None
+        for name, args in steps:
+            rc, so, se = pipeline.run_script(name, args, inprocess=True)
+            if rc not in (0, 4):
+                failed = (name, se[-200:])
+                break
+        R.case(case, nontrivial=True)
+        if failed:
+            # "If a pair of scales cannot be processed, the tool fails with an error": acceptable
+            R.count(f"whole-level:{failed[0]}:error")
+            continue
+        acc = {"flat": "--flat" in store, "gzip": "--no-gzip" not in store}
+        try:
+            info, scales = pipeline.read_dataset(out, acc)
+        except Exception as e:  # noqa: BLE001
+            R.violation("compute-scales exited 0 but a scale cannot be read back", case, {"exc": f"{type(e).__name__}: {e}"[:200]})
+            continue
+        ds = downscaling.get_downscaler(method, info, {"outside_value": ov})
+        R.count(f"whole-level:{method}:ov={ov}:ok")
+        for a, b in zip(info["scales"], info["scales"][1:]):
+            factors = [1 if x == y else 2 for x, y in zip(a["size"], b["size"])]
+            want = ds.downscale(scales[a["key"]], factors)
+            got = scales[b["key"]]
+            if want.shape != got.shape or want.tobytes() != np.ascontiguousarray(got).tobytes():
+                nbad = int((want != got).sum()) if want.shape == got.shape else -1
+                R.violation("a scale differs from the downscaling of the whole previous scale", case,
+                            {"from": a["key"], "to": b["key"], "factors": factors, "voxels_differing": nbad,
+                             "chunk_sizes": [a["chunk_sizes"][0], b["chunk_sizes"][0]]})
+                break
 
 
 def replay(R, payload):
